@@ -39,6 +39,10 @@ class C10(C01):
             base["steps"].append(wl.call(rng.choice(["set", "get", "delete", "incr", "touch", "add", "gets",
                                                      "get_many", "set_many", "version"
                                                      if w["stack"] != "hash" else "get"])))
+            if rng.random() < 0.12:
+                # calls whose only (or last) socket call is a close()
+                base["steps"].append(wl.call("quit") if rng.random() < 0.5 else
+                                     {"t": "call", "m": "close", "a": [], "k": {}})
         if w["stack"] != "client" and rng.random() < 0.4:
             # a call that is rejected before any I/O while the pooled connection is open: the pool then discards
             # a perfectly healthy connection, and the only socket call of that operation is the close()
@@ -73,6 +77,18 @@ class C10(C01):
                                 f["sent"] = rng.choice([1, 2, 5, 9, 14, 20, 40])
                             v["steps"][i]["faults"] = [f]
                             out.append(v)
+        # two interruptions in one history: the clean-up after the first one must not disable the clean-up after
+        # the second (the second lands in a later call's first receive or send)
+        for v in rng.sample(out, min(len(out), max(1, len(out) // 8))):
+            first = next(i for i, st in enumerate(v["steps"]) if st.get("faults"))
+            later = [j for j in call_steps[:-3] if j > first]
+            if not later:
+                continue
+            j = rng.choice(later)
+            v2 = copy.deepcopy(v)
+            v2["steps"][j]["faults"] = [{"at": [rng.choice(["recv", "recv", "sendall"]), 0], "kind": "interrupt",
+                                         "exc": rng.choice(EXCS), "when": rng.choice(["before", "after"])}]
+            out.append(v2)
         return out or [base]
 
     def hooks(self, scn):
